@@ -344,7 +344,11 @@ def run_integral(case, res):
         res.check("analytic_integral", False, "C12_integral_returns_none:" + name,
                   "%s.getAnalyticSolutionIntegral returns None (reference %s)" % (name, ref), ctx)
     else:
-        res.close("analytic_integral", np.atleast_1d(np.asarray(ana, dtype=float)), ref, 1e-9 * np.maximum(absref, 1e-300),
+        vol = float(np.prod(np.array(e) - np.array(s)))
+        # absolute floor: closed forms built from differences of O(1) antiderivatives (erf, exp, powers) carry an absolute
+        # rounding error relative to the function's natural scale, not to its (possibly tiny) integral over a far-tail box
+        floor = 1e-13 * vol * max(1.0, float(np.max(absref)) / max(vol, 1e-300))
+        res.close("analytic_integral", np.atleast_1d(np.asarray(ana, dtype=float)), ref, 1e-9 * absref + floor,
                   "C12_integral:" + name, "%s: analytic integral differs from the numerical integral of eval over %s..%s" % (name, s, e), ctx)
     unit = all(x == 0.0 for x in s) and all(x == 1.0 for x in e)
     res.hash = digest([name, d, s, e])
